@@ -47,6 +47,9 @@ pub struct Ctx {
     pub only: Option<String>,
     /// reduced bookkeeping (Miri / memcheck): coverage accounting is left to the native runs
     pub lite: bool,
+    /// under reduced budgets: maximum number of evaluations per case group (deterministic bound)
+    pub cap: u64,
+    group_start: u64,
     pub out: Option<PathBuf>,
     pub rng: Rng,
     pub evals: u64,
@@ -106,6 +109,12 @@ impl Ctx {
             nshards: nshards.max(1),
             only: arg_value(&args, "--only"),
             lite: matches!(budget, Budget::Miri | Budget::Memcheck),
+            cap: arg_value(&args, "--cap").and_then(|s| s.parse().ok()).unwrap_or(match budget {
+                Budget::Miri => 16,
+                Budget::Memcheck => 400,
+                _ => u64::MAX,
+            }),
+            group_start: 0,
             out,
             rng: Rng::new(seed),
             evals: 0,
@@ -169,6 +178,7 @@ impl Ctx {
             let _ = j.flush();
         }
         let before = self.evals;
+        self.group_start = before;
         let r = catch_unwind(AssertUnwindSafe(|| f(self)));
         if let Err(e) = r {
             let msg = crate::util::panic_message(&e);
@@ -180,6 +190,10 @@ impl Ctx {
         self.groups.push((name.to_string(), n));
     }
 
+    /// under reduced budgets: has this group used up its evaluation allowance?
+    pub fn over(&self) -> bool {
+        self.lite && self.evals - self.group_start >= self.cap
+    }
     pub fn eval(&mut self) {
         self.evals += 1;
     }
